@@ -408,6 +408,14 @@ func c15Stores(c *h.Ctx, id string, r *rand.Rand) {
 	cm, cb := mk(ms.store), mk(bs.store)
 	var hist []string
 	var names []enc.Name
+	// packets a caller got from the on-disk store and still holds (queued in a face, being
+	// sent) while later publications go on: the bytes it was given must not change under it
+	type heldPkt struct {
+		name      enc.Name
+		got, copy []byte
+		step      int
+	}
+	var held []heldPkt
 	objs := []string{"/o/a", "/o/a/b", "/o/c", "/o/32=a", "/o/a/32=b"} // incl. siblings that differ only in the component type
 	for step := 0; step < 6+r.Intn(8); step++ {
 		on, _ := enc.NameFromStr(objs[r.Intn(len(objs))])
@@ -471,8 +479,18 @@ func c15Stores(c *h.Ctx, id string, r *rand.Rand) {
 			a, _ := ms.store.Get(n.Clone(), false)
 			b, _ := bs.store.Get(n.Clone(), false)
 			c.Count("store_queries", 1)
+			if b != nil && len(held) < 40 && r.Intn(3) == 0 {
+				held = append(held, heldPkt{n.Clone(), b, append([]byte{}, b...), len(hist)})
+			}
 			if !bytes.Equal(a, b) {
 				c.Violation("C15:stores-disagree:exact", id, fmt.Sprintf("Get(%s, exact) differs: memory store %d bytes, bolt store %d bytes", n, len(a), len(b)), map[string]any{"history": hist})
+				return
+			}
+		}
+		for _, hp := range held {
+			c.Count("held_packets_rechecked", 1)
+			if hp.step < len(hist) && !bytes.Equal(hp.got, hp.copy) {
+				c.Violation("C15:store-returned-bytes-change-after-later-writes", id, fmt.Sprintf("the %d bytes the on-disk store returned for %s changed while the caller still held them, after later publications/removals", len(hp.copy), hp.name), map[string]any{"history": hist, "returned_after_history_entries": hp.step})
 				return
 			}
 		}
